@@ -21,4 +21,9 @@ for d in seeded/*/; do
     echo "$n	$id	$v" | tee -a $tmp
   done
 done
+if [ $# -gt 0 ] && [ -f $out ]; then
+  # partial run: keep the rows of the seeds that were not re-run
+  pat=$(printf '^%s|' "$@"); pat=${pat%|}
+  grep -v "^#" $out | grep -Ev "$pat" > $tmp.keep; cat $tmp >> $tmp.keep; sort $tmp.keep > $tmp; rm -f $tmp.keep
+fi
 { echo "# seed	check	outcome (quick tier, seed 1) — written by tools/seed_matrix.sh on /repo $(git -C /repo rev-parse --short HEAD)"; cat $tmp; } > $out; rm -f $tmp
